@@ -88,12 +88,13 @@ Definition check_c (c : ccase) : list kind :=
 
 (* ---------- CF ---------- *)
 Record fobs := { fo_res : N; fo_bytes : list N }.     (* result code; bytes that arrived at the destination during the call *)
-(* f_kind: 0 /dev/null, 1 /dev/stdout, 2 /dev/stderr, 3 regular file, 4 file whose writes fail (ENOSPC), 5 directory cannot be created *)
+(* f_kind: 0 /dev/null, 1 /dev/stdout, 2 /dev/stderr, 3 regular file, 4 file whose writes fail (ENOSPC), 5 directory cannot be created,
+   6 / 7 /dev/stdout / /dev/stderr while os.Stdout / os.Stderr is an fd on /dev/full (every write fails with ENOSPC), 8 / 9 the same with a closed file *)
 Record fcase := { f_kind : N; f_fmt : N; f_table : table; f_obs : fobs }.
 
 Definition check_f (c : fcase) : list kind :=
-  let pk := match f_kind c with 0 => PNull | 1 => PStdout | 2 => PStderr | _ => PFile end%N in
-  let failing := N.eqb (f_kind c) 4 in
+  let pk := match f_kind c with 0 => PNull | 1 | 6 | 8 => PStdout | 2 | 7 | 9 => PStderr | _ => PFile end%N in
+  let failing := match f_kind c with 4 | 6 | 7 | 8 | 9 => true | _ => false end%N in
   let F := {| fs_open_ok := negb (N.eqb (f_kind c) 5);
               fs_w1 := writer_of (if failing then WFail0 else WOk); fs_reopen_ok := true;
               fs_w2 := writer_of (if failing then WFail0 else WOk) |} in
